@@ -13,6 +13,7 @@ extern crate rustc_middle;
 extern crate rustc_session;
 extern crate rustc_span;
 
+mod constdump;
 mod hirdump;
 mod json;
 mod mirdump;
@@ -42,6 +43,11 @@ impl Callbacks for Cb {
         let mir = with_no_trimmed_paths!(with_no_visible_paths!(with_resolve_crate_name!(
             mirdump::dump(tcx, &krate)
         )));
+        let consts = with_no_trimmed_paths!(with_no_visible_paths!(with_resolve_crate_name!(
+            constdump::dump(tcx, &krate)
+        )));
+        let p0 = format!("{}/{}{}.consts.json", self.out_dir, krate, suffix);
+        std::fs::write(&p0, consts).expect("write const facts");
         let p1 = format!("{}/{}{}.hir.json", self.out_dir, krate, suffix);
         let p2 = format!("{}/{}{}.mir.json", self.out_dir, krate, suffix);
         std::fs::write(&p1, hir).expect("write hir facts");
